@@ -18,6 +18,7 @@ import (
 	"regexp"
 	"strings"
 	"sync"
+	"syscall"
 	"time"
 
 	"github.com/magisterquis/curlrevshell/verifx/ev"
@@ -42,6 +43,8 @@ type c12Case struct {
 	Brief bool `json:"ends_at_once,omitempty"`
 	/* Listen: the -listen-address ("" means 127.0.0.1:0). */
 	Listen string `json:"listen_address,omitempty"`
+	/* Log, if set, is given as -log (a device, a FIFO, a file). */
+	Log string `json:"log,omitempty"`
 }
 
 func chunk(s string) string { return fmt.Sprintf("%x\r\n%s\r\n", len(s), s) }
@@ -56,6 +59,25 @@ func c12Run(c c12Case, base string) (string, string) {
 		listen = c.Listen
 	}
 	cmd := exec.Command(binPath("curlrevshell"), "-one-shell", "-listen-address", listen, "-tls-certificate-cache", filepath.Join(dir, "c", "cert.txtar"))
+	switch c.Log {
+	case "":
+	case "fifo":
+		/* A FIFO somebody reads (a log shipper). */
+		fifo := filepath.Join(dir, "log.fifo")
+		if err := syscall.Mkfifo(fifo, 0o600); nil == err {
+			go func() {
+				if f, err := os.Open(fifo); nil == err {
+					io.Copy(io.Discard, f)
+					f.Close()
+				}
+			}()
+			cmd.Args = append(cmd.Args, "-log", fifo)
+		}
+	case "file":
+		cmd.Args = append(cmd.Args, "-log", filepath.Join(dir, "session.json"))
+	default:
+		cmd.Args = append(cmd.Args, "-log", c.Log)
+	}
 	cmd.Env = append(os.Environ(), "HOME="+dir, "CURLREVSHELL_LOG=")
 	p, err := ptyrun.Start(cmd)
 	if nil != err {
@@ -471,6 +493,11 @@ func c12(r *ev.Result, tier string) {
 	}
 	for _, arr := range []string{"in-out", "io"} {
 		cases = append(cases, c12Case{Arrival: arr, Ending: "eof", Trigger: "line", QuietMs: long})
+	}
+	/* With a log that is a device, a FIFO, a file: the exit is the same. */
+	for _, lg := range []string{"/dev/null", "fifo", "file"} {
+		cases = append(cases, c12Case{Arrival: "io", Ending: "eof", Trigger: "line", Log: lg})
+		cases = append(cases, c12Case{Arrival: "in-out", Ending: "close-both", Trigger: "ctrl-d", Log: lg})
 	}
 	/* Clients that do not speak TLS, before the shell. */
 	for _, arr := range []string{"in-out", "io"} {
